@@ -28,7 +28,6 @@ var c11Valid = []string{"7 3 1 1 *", "7 3 29 2 *", "7 3 1 7 *", "0 8 3 1 1 *", "
 // Specs the cron library rejects.
 var c11Invalid = []string{"61 * * * *", "not a crontab", "* * *", ""}
 
-
 // ------------------------------------------------------------------ part A: the manager alone
 
 type c11Sm struct {
